@@ -800,6 +800,9 @@ def asset_name(env):
         seq = ["", "1", "10", "2", "11", "21", "12", "100", "3", "13", "101", "20", "4", "14", "110", "5", "15", "111", "22", "6", "16", "7"]
         return fam + (seq[n] if n < len(seq) else "_%d" % n)
     pool = ["a%d", "A_%d", "%d", "a%d_x", "as %d"]
+    if getattr(env, "date_names", False) and n < 27:
+        # names are free text: a product called after its delivery day
+        return env.rng.choice(["2021-01-%02d", "2021-01-%02d 00:00:00", "2021-01-%02dT06:00:00"]) % (n + 1)
     if getattr(env, "unicode_names", False):
         pool = pool + ["Gasspeicher Süd %d", "€ %d"]     # names are free text
     return env.rng.choice(pool) % n
@@ -1366,3 +1369,48 @@ def clean_world(world):
             if g["freq"] == "15min" and g["mtu"] == "d":
                 g["mtu"] = "h"
     return w
+
+
+# --------------------------------------------------------------------------- world transformations (applied to finished worlds)
+
+
+def rename_price_key(world, old, new):
+    """Another name for one price column, wherever assets refer to it and in every price table."""
+    def walk(v):
+        if isinstance(v, dict):
+            return {k: walk(x) for k, x in v.items()}
+        if isinstance(v, list):
+            return [walk(x) for x in v]
+        return new if (isinstance(v, str) and v == old) else v
+    for a in world["assets"].values():
+        a["kw"] = {k: (v if k == "name" else walk(v)) for k, v in a["kw"].items()}
+    for d in list(world.get("dicts", {})):
+        world["dicts"][d] = walk(world["dicts"][d])
+    for p in world["prices"].values():
+        if old in p["cols"]:
+            p["cols"] = {(new if k == old else k): v for k, v in p["cols"].items()}
+
+
+def make_arrays_constant(world, rng, p=0.5):
+    """Arrays (numbers and dates) whose entries are all equal: an order book whose orders share one delivery period, a flat profile."""
+    n = [0]
+
+    def walk(v):
+        if isinstance(v, dict):
+            if v.get("$t") in ("nd", "nd32", "nd_int", "nd_dt", "dti", "nd_obj") and isinstance(v.get("v"), list) and len(v["v"]) >= 2 \
+                    and rng.random() < p:
+                v = dict(v)
+                v["v"] = [v["v"][0]] * len(v["v"])
+                v.pop("freq", None)
+                n[0] += 1
+                return v
+            return {k: walk(x) for k, x in v.items()}
+        if isinstance(v, list):
+            return [walk(x) for x in v]
+        return v
+    for a in world["assets"].values():
+        # (ramp profiles must stay ordered: lower <= upper, which the constructors assert)
+        a["kw"] = {k: (v if "ramp" in k else walk(v)) for k, v in a["kw"].items()}
+    for d in list(world.get("dicts", {})):
+        world["dicts"][d] = walk(world["dicts"][d])
+    return n[0]
